@@ -101,6 +101,9 @@ source_for(const std::string &profile, const std::string &prop, int tier)
                 // C17: each task's history must equal the history of the same task run alone; every execution happens in a
                 // forked child so that whatever a run leaves in the library's process-wide state cannot reach the next one
                 s.isolate = true;
+                // one run in four: synchronous bursts and direct calls on one manager while another keeps jobs of the same
+                // suites parked
+                s.make = [pc](uint64_t run_seed, uint64_t idx) { return (idx % 4 == 3) ? gen_plan_indep_entry(pc, run_seed) : gen_plan(pc, run_seed); };
                 s.post = [](const Plan &p, const RunResult &r, std::vector<Violation> &out) {
                         for (size_t t = 0; t < p.task_cfg.size(); t++) {
                                 RunOpts o;
